@@ -46,8 +46,17 @@ package storage
 //@   ensures [op] bw_n == upd(old(bw_n), self, old(bw_n)[self]+1) && bw_kind == upd(old(bw_kind), self, upd(old(bw_kind)[self], old(bw_n)[self], 3))
 //@   ensures [args] bw_key == upd(old(bw_key), self, upd(old(bw_key)[self], old(bw_n)[self], key)) && bw_val == upd(old(bw_val), self, upd(old(bw_val)[self], old(bw_n)[self], val)) && bw_ttl == upd(old(bw_ttl), self, upd(old(bw_ttl)[self], old(bw_n)[self], ttl))
 
+//@ func BatchWrite.Del(key)
+//@   assumed
+//@   modifies ghost.bw_n ghost.bw_kind ghost.bw_key
+//@   ensures [op] bw_n == upd(old(bw_n), self, old(bw_n)[self]+1) && bw_kind == upd(old(bw_kind), self, upd(old(bw_kind)[self], old(bw_n)[self], 4))
+//@   ensures [args] bw_key == upd(old(bw_key), self, upd(old(bw_key)[self], old(bw_n)[self], key))
+
 //@ func BatchWrite.Commit(ctx) (err)
 //@   assumed
+// only a conditional operation can be refused: a batch holding one plain put or delete never reports a
+// failed condition or a missing key (deleting what is not there is a no-op on every engine)
+//@   ensures [a-single-unconditional-operation-is-never-refused] old(bw_n)[self] == 1 && (old(bw_kind)[self][0] == 3 || old(bw_kind)[self][0] == 4) ==> !err_is(err, ErrCASFailed) && !err_is(err, ErrKeyNotFound)
 //@   modifies ghost.commits ghost.last_batch ghost.last_err ghost.batch_open ghost.floor ghost.floor_set
 //@   ensures [count] commits == old(commits)+1 && last_batch == self && last_err == err && !batch_open
 //@   ensures [conflicts-are-objects] typeis(err, "*storage.Conflict") ==> asptr(err, "*storage.Conflict") != nil
